@@ -69,7 +69,7 @@ theorem specDivCore_val18 (tm : Mode) (a : Int) (p : Nat) (b : Int) (q : Nat) (c
 
 /-- `divCore` (kernel with n = 18, then normalize) -/
 theorem divCore_spec (hw : C04.WideDiv) (prof : Profile) (tm : Mode) (a : Int) (p : Nat) (b : Int) (q : Nat)
-    (ha : I128_MIN < a ∧ a ≤ I128_MAX) (hb : I128_MIN < b ∧ b ≤ I128_MAX) (hb0 : b ≠ 0) (hp : p ≤ 18) (hq : q ≤ 18) :
+    (ha : I128_MIN < a ∧ a ≤ I128_MAX) (hb : I128_MIN ≤ b ∧ b ≤ I128_MAX) (hb0 : b ≠ 0) (hp : p ≤ 18) (hq : q ≤ 18) :
     Spec.allowedChecked (specDivTail tm a p b q) (outOptPair (divCore prof tm a p b q)) = true := by
   have hk := C04.checkedDivRounded_spec hw prof tm a p b q 18 ha hb hb0 hp hq (by omega)
   unfold divCore specDivTail
@@ -132,7 +132,7 @@ theorem div_spec (hw : C04.WideDiv) (prof : Profile) (tm : Mode) (x y : Dec) (hx
       · simp [h1, ha0, Spec.div, C02.isOne_eq, Spec.allowedOp]
       · simp only [h1, decide_false, Bool.false_eq_true, if_false]
         rw [spec_div_tail tm a p b q hb0 ha0 h1]
-        have hk := divCore_spec hw prof tm a p b q ⟨hx.1, hx.2.1⟩ ⟨hy.1, hy.2.1⟩ hb0 hx.2.2 hy.2.2
+        have hk := divCore_spec hw prof tm a p b q ⟨hx.1, hx.2.1⟩ ⟨Int.le_of_lt hy.1, hy.2.1⟩ hb0 hx.2.2 hy.2.2
         obtain ⟨s1, s2, s3⟩ := specDivTail_shape tm a p b q
         have hop := allowedOp_of_checked _ _ hk s1 s2 s3
         generalize divCore prof tm a p b q = r at hop ⊢
@@ -159,11 +159,11 @@ theorem checked_div_spec (hw : C04.WideDiv) (prof : Profile) (tm : Mode) (x y : 
       · simp [h1, ha0, Spec.div, C02.isOne_eq, Spec.allowedChecked]
       · simp only [h1, decide_false, Bool.false_eq_true, if_false]
         rw [spec_div_tail tm a p b q hb0 ha0 h1]
-        exact divCore_spec hw prof tm a p b q ⟨hx.1, hx.2.1⟩ ⟨hy.1, hy.2.1⟩ hb0 hx.2.2 hy.2.2
+        exact divCore_spec hw prof tm a p b q ⟨hx.1, hx.2.1⟩ ⟨Int.le_of_lt hy.1, hy.2.1⟩ hb0 hx.2.2 hy.2.2
 
 /-- `Decimal / int` and `Decimal.checked_div(int)` after the zero-divisor test (`i ≠ 0`): same as with `Decimal::from(i)` -/
 theorem div_dec_int_spec (hw : C04.WideDiv) (prof : Profile) (tm : Mode) (x : Dec) (i : Int) (hx : Dom x)
-    (hi : I128_MIN < i ∧ i ≤ I128_MAX) (hi0 : i ≠ 0) :
+    (hi : I128_MIN ≤ i ∧ i ≤ I128_MAX) (hi0 : i ≠ 0) :
     Spec.allowedChecked (Spec.div tm x.coeff x.nfrac i 0) (outOptPair (divDecInt prof tm x i)) = true := by
   obtain ⟨a, p⟩ := x
   unfold divDecInt
@@ -194,7 +194,7 @@ theorem div_int_dec_spec (hw : C04.WideDiv) (prof : Profile) (tm : Mode) (i : In
     · simp [h1, ha0, Spec.div, C02.isOne_eq, Spec.allowedChecked]
     · simp only [h1, decide_false, Bool.false_eq_true, if_false]
       rw [spec_div_tail tm i 0 b q hy0 ha0 h1]
-      exact divCore_spec hw prof tm i 0 b q hi ⟨hy.1, hy.2.1⟩ hy0 (by omega) hy.2.2
+      exact divCore_spec hw prof tm i 0 b q hi ⟨Int.le_of_lt hy.1, hy.2.1⟩ hy0 (by omega) hy.2.2
 
 /-! ### non-vacuity -/
 example : div Profile.dev .heven ⟨1, 0⟩ ⟨3, 0⟩ = .ok ⟨333333333333333333, 18⟩ := by decide
